@@ -102,7 +102,7 @@ VENTRY(h_gyro)
 // boundary data = exact solution at every boundary point.  a: problem (0 CartesianR2, 1 CartesianR6, 2 PolarR6), geometry (0..2)
 VENTRY(h_boundary)
 {
-    const double Rmax = 1.3, k = 0.3, d = 0.2, eps = 0.3, e = 1.4;
+    const double Rmax = 1.3, k = 0.35, d = 0.15, eps = 0.25, e = 1.25;   // deliberately NOT the defaults (0.3, 0.2, 0.3, 1.4): a class that ignores a constructor argument must show
     std::unique_ptr<BoundaryConditions> B; std::unique_ptr<ExactSolution> U;
     const int pr = a[0], g = a[1];
     if (pr == 0 && g == 0) { B = std::make_unique<CartesianR2_Boundary_CircularGeometry>(Rmax); U = std::make_unique<CartesianR2_CircularGeometry>(Rmax); }
@@ -196,7 +196,7 @@ struct Problem { std::unique_ptr<DomainGeometry> G; std::unique_ptr<ExactSolutio
 // prof: 0 Poisson, 1 Sonnendrucker, 2 Zoni, 3 ZoniShifted, 4 SonnendruckerGyro, 5 ZoniGyro, 6 ZoniShiftedGyro
 static Problem problem(int pr, int g, int prof = 0)
 {
-    const double Rmax = 1.3, k = 0.3, d = 0.2, eps = 0.3, e = 1.4;
+    const double Rmax = 1.3, k = 0.35, d = 0.15, eps = 0.25, e = 1.25;   // deliberately NOT the defaults (0.3, 0.2, 0.3, 1.4): a class that ignores a constructor argument must show
     Problem p;
     switch (prof) {
     case 0: p.P = std::make_unique<PoissonCoefficients>(Rmax, 0.0); break;
